@@ -636,9 +636,16 @@ def run_rw(ck, cases, rwcases, rwres):
     ck.obligation("every payload the writer stored is well formed (wf_raw_b: distinct non-zero ids, every reference resolves, one value per "
                   "sample type) -- the hypothesis under which the merged profile is judged; %d built cases hold a malformed payload" % (len(notwf) - len(bad_e2e)),
                   not bad_e2e and len(notwf) > len(bad_e2e), "cases %s" % bad_e2e[:10])
-    ck.obligation("hypothesis of payload_merge_is_sum evaluated: sanitizeProfile of every well-formed payload is sane (first string empty, ids "
-                  "1..n, references in range, one value per type): %d of %d payloads" % (sane[1], sane[0]), sane[0] > 0 and sane[0] == sane[1], "")
+    ck.obligation("sanitize_sane (a theorem since round 8, for EVERY payload) cross-checked by evaluation: sanitizeProfile of every decoded payload, "
+                  "malformed ones included, is sane (first string empty, ids 1..n, references in range, one value per type): %d of %d payloads"
+                  % (sane[1], sane[0]), sane[0] > 0 and sane[0] == sane[1], "")
     viol = sorted(i for i, k in vv.items() if k != 0)
+    closed_malformed = sum(1 for i in notwf if rw_err(byid[i].get("mp")) == 0 and byid[i].get("rwout"))
+    ck.extra["payload_merges_with_malformed_payload_judged_closed"] = closed_malformed
+    ck.obligation("merged_profile_closed judged on the OBSERVED merged message of every answered merge (closed_b: function / location ids 1..n, "
+                  "every function and location reference and every function string index resolves, one value per sample type; rw_spec code 5): "
+                  "%d answered merges, %d of them with a malformed payload" % (nmerged, closed_malformed),
+                  not any(k == 5 for k in vv.values()) and closed_malformed > 0, "case ids %s" % [i for i in viol if vv[i] == 5][:10])
     ck.obligation("spec oracle on the OBSERVED merged profile (well-formed payloads): no panic, per-type totals = sums over the payloads, every resolved "
                   "stack of functions carries the sum of its weights in the payloads (%d merges judged stack by stack)" % judged,
                   not viol and judged > 0, "case ids %s" % [(i, vv[i]) for i in viol[:10]])
@@ -647,7 +654,8 @@ def run_rw(ck, cases, rwcases, rwres):
         ck.violation({"property": "C16", "kind": "the merged profile answered by MergeProfiles does not carry the weights of the payloads",
                       "case": rw_slim(worst), "code": vv[worst["id"]], "error": (worst.get("mp") or {}).get("err"), "panic": (worst.get("mp") or {}).get("panic"),
                       "explanation": "rw_spec (coq/model/ProfRewriteCase.v): 2 = panic / unknown error, 3 = per-type totals differ, 4 = a resolved stack carries "
-                      "another weight than in the payloads together",
+                      "another weight than in the payloads together, 5 = the merged message is not closed (a dangling function / location reference, "
+                      "ids not 1..n, a sample without one value per sample type: theorem merged_profile_closed)",
                       "replay": "write the case as one JSON line and run: proftree --cases <file> (rwpayloads = the protobuf messages, base64)"})
     elif mm:
         worst = min((byid[i] for i in mm), key=lambda c: sum(len(x) for x in c["rwin"]))
